@@ -125,8 +125,8 @@ void vf_opts_default (vf_opts *o);
 
 /* Start scheduling.  The caller becomes tid 0.  o may be NULL (defaults). */
 void vf_sched_init (vf_mode mode, uint64_t seed, const vf_opts *o);
-/* Same as calling vf_sched_init: registers the calling thread as tid 0 if the
- * shim is already initialised by someone else this is a no-op. */
+/* Register the calling thread as tid 0 with the defaults (VF_REPLAY, empty schedule =
+ * default policy) unless the shim is already active, in which case this is a no-op. */
 void vf_register_main (void);
 /* Stop scheduling: all later vf_* calls go to the real pthread functions.  Only
  * legal when every created thread has finished (returns -1 otherwise). */
@@ -136,6 +136,13 @@ int vf_sched_unfinished (void);
 
 /* VF_REPLAY: the schedule prefix to follow (copied). */
 void vf_sched_set_schedule (const uint8_t *choices, int n);
+/* Alternative to a schedule (any mode): the tid to run at *every* scheduling point, forced
+ * or not, in order (one entry per begin/create/join/exit/lock/trylock/cont/cwait/cwake/
+ * signal/bcast/yield event of the intended trace; 64+tid for a spurious cwake).  Used to replay
+ * a trace produced by a model.  Entries that are not enabled count as divergences
+ * (vf_sched_diverged) and the mode's own choice is used instead.  Copied; survives vf_sched_init. */
+void vf_sched_set_follow (const uint8_t *tids, int n);
+int vf_sched_diverged (void);
 /* Parse "3,0,65,1" into buf (at most cap values); returns the count. */
 int vf_parse_schedule (const char *text, uint8_t *buf, int cap);
 /* The decisions taken so far in this run: values chosen.  Returns the count
@@ -192,6 +199,7 @@ typedef struct {
   const uint8_t *schedule; int n_schedule;   /* full schedule of this run (replayable) */
   const char *trace; size_t trace_len;       /* text as vf_sched_trace_dump prints it */
   int cost;            /* cost of this schedule */
+  int diverged;        /* replay/follow entries that were not options (0 = replayed faithfully) */
 } vf_run;
 
 typedef struct { long runs, failed, max_decisions, truncated; } vf_explore_stats;
